@@ -25,7 +25,9 @@ ASSUMPTIONS = [
 BOUNDARY = bytes.fromhex("007F808F909FA0BFC0C1C2DFE0E1ECEDEEEFF0F1F3F4F5FF")
 
 IMPLS_PY = ["py"]
-IMPLS_NVX = ["nvx-wrapper", "c-impl1", "c-impl2", "c-impl3", "c-impl4"]
+# "c-impl2r": the table implementation, selected AGAIN (same id) before every chunk: the implementations
+# share one validator state, choosing one is no reset
+IMPLS_NVX = ["nvx-wrapper", "c-impl1", "c-impl2", "c-impl3", "c-impl4", "c-impl2r"]
 
 
 def main(ctx):
@@ -80,13 +82,16 @@ def _impl(name):
         return v.reset, v.validate
     import _nvx_utf8validator as m
     ffi, lib = m.ffi, m.lib
-    want = int(name[-1])
+    reselect = name.endswith("r")
+    want = int(name.rstrip("r")[-1])
     p = ffi.gc(lib.nvx_utf8vld_new(), lib.nvx_utf8vld_free)
     got = lib.nvx_utf8vld_set_impl(p, want)
     if got != want:
         return None
 
     def validate(ba):
+        if reselect:
+            lib.nvx_utf8vld_set_impl(p, want)
         res = lib.nvx_utf8vld_validate(p, ba, len(ba))
         return (res >= 0, res == 0, lib.nvx_utf8vld_get_current_index(p),
                 lib.nvx_utf8vld_get_total_index(p))
